@@ -327,7 +327,8 @@ Definition sim_set_field (o : sopts) (self : pn) (id : Z) (t : Z) (vb : list Z) 
       | Some v =>
         if is_kfield id (pn_key v) then ROk (SetOk (put_node self id t vb) true)
         else if is_knone (pn_key v) then
-          ROk (SetOk (set_next self (pn_len self) (aset (pn_arr self) id (set_key (node_of_bytes v t vb) (KField id)))) false)
+          ROk (SetOk (set_next self (pn_len self)
+                               (aset (pn_arr self) id (set_next (set_key (node_of_bytes v t vb) (KField id)) 0 (pn_arr v)))) false)
         else ROk slow
       | None => RPanic
       end
